@@ -221,6 +221,46 @@ def run(ctx):
                         ctx.violation("history: final header of a result differs from the store model's", slim, {"result": i, "d": pc.diff(y, x)}, False, size=len(steps)); break
             else:
                 ctx.violation("history: number of live results differs from the model's", slim, {"impl": len(final_h), "model": len(mo["final"])}, False, size=len(steps))
+    other_bodies(ctx)
+
+
+def other_bodies(ctx):
+    """The same question for the torch body class (tensorflow tensors are immutable): a pose read into a TorchPoseBody, edited in place through its tensors, must not change
+    the caller's bytes, an earlier result read from the same bytes object, or what a later read of those bytes returns (into any body class)."""
+    import warnings
+    from pose_format import Pose
+    from pose_format.pose_header import PoseHeaderCache
+    from pose_format.torch.pose_body import TorchPoseBody
+    rng = ctx.rng
+    for _ in range(ctx.pick(12, 80)):
+        case = make_file(rng, rng.choice([1, 2, 4]), rng.choice([1, 3]), 1, rng.choice([2, 3]))
+        raw = refenc.v02(case)
+        pristine = bytes(bytearray(raw))                                  # a real copy, made before anything reads `raw`
+        source = rng.choice(["bytes", "stream"])
+        want = pc.canon_pose(Pose.read(pristine))
+        info = {"file_hex": pristine.hex() if len(pristine) < 3000 else None, "source": source}
+        ctx.evaluated(("torch-alias", pristine, source)); ctx.count("torch_body_histories")
+        with warnings.catch_warnings():
+            warnings.simplefilter("ignore")
+            PoseHeaderCache.clear_cache()
+            first = Pose.read(raw if source == "bytes" else io.BytesIO(raw), TorchPoseBody)
+            second = Pose.read(raw if source == "bytes" else io.BytesIO(raw), TorchPoseBody)
+            snap2 = (second.body.data.tensor.clone(), second.body.confidence.clone())
+            try:                                                           # in-place edits through the public tensors of the first result
+                first.body.data.tensor.mul_(3.0).add_(1.0)
+                first.body.confidence.fill_(0.5)
+                first.body.data.mask.fill_(True)
+            except Exception as e:
+                ctx.count("torch_inplace_refused:" + type(e).__name__); continue
+            import torch
+            if raw != pristine:
+                ctx.violation("editing a pose changed the bytes it was read from", info, {"first_differing_byte": next(i for i, (a, b) in enumerate(zip(raw, pristine)) if a != b)}, True, signature={"clause": "torch-bytes"}); continue
+            bits = lambda t: t.contiguous().view(torch.int32)                  # NaN-safe: compare bit patterns
+            if not (torch.equal(bits(second.body.data.tensor), bits(snap2[0])) and torch.equal(bits(second.body.confidence), bits(snap2[1]))):
+                ctx.violation("an edit of one result changed another result", info, {"what": "two torch bodies read from the same bytes share memory"}, True, signature={"clause": "torch-shared"}); continue
+            again = pc.canon_pose(Pose.read(raw))
+            if pc.diff(want, again):
+                ctx.violation("a read returns something else than the decode of its bytes after this history", info, {"after": "in-place edits of a torch body read from the same bytes", "d": pc.diff(want, again)}, True, signature={"clause": "torch-later-read"})
 
 
 def replay(ctx, rep):
